@@ -161,6 +161,9 @@ def scenarios(tier, rng):
     # booleans through the scenario protocol (model comparison) and bare keys
     words = [b"yes", b"YES", b"yEs", b"no", b"No", b"true", b"TRUE", b"tRUe", b"false", b"False", b"1", b"0", b"", b"p-", b"g@lse", b"yes ",
              b" yes", b"on", b"off", b"2", b"01", b"truee", b"_none_", b"y", b"n", b"t", b"f", b"nope", b"yes\n"]
+    # every recognised spelling with one more character at either end is not a boolean
+    words += [w + c for w in (b"yes", b"no", b"true", b"false", b"1", b"0", b"FALSE", b"True") for c in (b"e", b"s", b"0", b"x", b".")]
+    words += [c + w for w in (b"yes", b"no", b"true", b"false", b"1", b"0") for c in (b"x", b"0", b"-")]
     for i in range(40 if tier == "quick" else 2000):
         s = Scenario("b%d" % i, {"bools": True})
         s.add("NEW", 0, "ini")
